@@ -115,18 +115,18 @@ func (e *Engine) fieldHeapName(structT types.Type, u *types.Struct, i int) (stri
 
 func (e *Engine) sliceHeapName(elem types.Type) (string, string) {
 	es := e.sortOf(elem)
-	return "HS_" + sanitize(es), "(Array Int (Array Int " + es + "))"
+	return "HS_" + typeKey(elem), "(Array Int (Array Int " + es + "))"
 }
 
 func (e *Engine) ptrHeapName(elem types.Type) (string, string) {
 	es := e.sortOf(elem)
-	return "HP_" + sanitize(es), "(Array Int " + es + ")"
+	return "HP_" + typeKey(elem), "(Array Int " + es + ")"
 }
 
 func (e *Engine) mapHeapNames(m *types.Map) (valH, valS, domH, domS string) {
 	ks, vs := e.sortOf(m.Key()), e.sortOf(m.Elem())
-	key := sanitize(ks) + "_" + sanitize(vs)
-	return "HMv_" + key, "(Array Int (Array " + ks + " " + vs + "))", "HMd_" + sanitize(ks), "(Array Int (Array " + ks + " Bool))"
+	key := typeKey(m.Key()) + "_" + typeKey(m.Elem())
+	return "HMv_" + key, "(Array Int (Array " + ks + " " + vs + "))", "HMd_" + key, "(Array Int (Array " + ks + " Bool))"
 }
 
 // typeTag returns a distinct integer tag for a concrete dynamic type.
